@@ -31,7 +31,9 @@ fn main() {
     }
     let opts = common::Opts::parse(&args[2..]);
     // panics are outcomes, not crashes: keep the default hook quiet
-    std::panic::set_hook(Box::new(|_| {}));
+    if env::var("VH_PANIC").is_err() {
+        std::panic::set_hook(Box::new(|_| {}));
+    }
     match args[1].as_str() {
         "expr" => s_expr::run(&opts),
         "engine" => s_engine::run(&opts),
